@@ -77,6 +77,15 @@ def gallina_diags(s):
     return "(Some [%s])" % "; ".join(items)
 
 
+COQ_ROOT = ("(root_tab 1 36 [(100, KOverloaded [400] true); (101, KOverloaded [401] true); (102, KOverloaded [402] true); "
+            "(205, KOverloaded [403; 404] true); (206, KOverloaded [410; 411; 412; 413] false); (207, KOverloaded [414; 415] false); "
+            "(208, KOverloaded [416; 417] false); (209, KOverloaded [418; 419] false); (228, KOverloaded [420; 421] false); "
+            "(229, KOverloaded [422; 423] false); (400, KParam MIn true); (401, KParam MIn true); (402, KParam MIn false); "
+            "(403, KParam MIn false); (404, KParam MIn false); (410, KParam MIn false); (411, KParam MIn false); "
+            "(412, KParam MIn false); (413, KParam MIn false); (414, KParam MIn true); (415, KParam MIn false); "
+            "(416, KParam MIn true); (417, KParam MOut true); (418, KParam MIn false); (419, KParam MOut false); "
+            "(420, KParam MInOut true); (421, KParam MIn false); (422, KParam MIn true); (423, KParam MOut true)])")
+
 COQ_PRE = """From Coq Require Import List NArith Bool.
 Import ListNotations.
 From RH Require Import Lint.Sens.
@@ -143,11 +152,11 @@ def compare(res, st, tag, cases, impl, model, f20_entry):
                     obj.update(extra)
                     res.violation(what, obj, no_failing_input=nf)
 
-            if m.startswith("BADCASE") or m.count("|") != 3:
+            if m.startswith("BADCASE") or m.count("|") != 4:
                 viol("the model runner could not read the case: " + m, "harness", nf=True)
                 continue
-            mm, mold, mspec, mfl = m.split("|")
-            fam, noout, wf, listed, mcat = mfl.split()
+            mm, mold, mf20, mspec, mfl = m.split("|")
+            fam, resolved, wf, listed, mcat = mfl.split()
             di = parse_diags(i)
             dm = parse_diags(mm) if mm != "PANIC" else None
             if cid in sampled or n % 97 == 1:
@@ -182,7 +191,7 @@ def compare(res, st, tag, cases, impl, model, f20_entry):
                     st.missing_sizes[len(sigs)] = st.missing_sizes.get(len(sigs), 0) + 1
                 st.sup_sizes[len(po[1])] = st.sup_sizes.get(len(po[1]), 0) + 1
                 if not oracle_ok(di, po):
-                    if "O" in flags and oracle_ok(di, parse_oracle(o_alt)):
+                    if "O" in flags and o_alt and oracle_ok(di, parse_oracle(o_alt)):
                         # explained exactly by "an out-mode actual is treated as read"
                         if f20_entry:
                             st.f20 += 1
@@ -191,12 +200,14 @@ def compare(res, st, tag, cases, impl, model, f20_entry):
                         else:
                             prop_ok = False
                             viol("a signal passed as the actual of an out-mode procedure parameter is treated as read "
-                                 "(no open known-finding entry with match.construct == out_actual)", "input")
+                                 "(finding F20, repaired by 8599f6f, has returned)", "input", expected=o_main)
                     else:
                         prop_ok = False
                         what = "the reported diagnostics differ from the process's known read set " \
                                "(missing signals in first-read order with their first-read positions / superfluous entries)"
-                        if mold != mm and canon(di) == canon(parse_diags(mold)):
+                        if mf20 != mm and mf20 != "PANIC" and canon(di) == canon(parse_diags(mf20)):
+                            what += "; the implementation behaves like the model of the code before 8599f6f (finding F20 has returned)"
+                        elif mold != mm and canon(di) == canon(parse_diags(mold)):
                             what += "; the implementation behaves like the pre-fix model (findings F14/F15 have returned)"
                         viol(what, "input", expected=o_main)
             res.count_case(cid + ast, nontrivial)
@@ -217,9 +228,9 @@ def compare(res, st, tag, cases, impl, model, f20_entry):
             if cat == "c":
                 if ("F" in flags) != (fam == "1"):
                     bad.append("in_family=%s but flags %s" % (fam, flags))
-                if ("O" in flags) != (noout == "0"):
-                    bad.append("no_out_actuals=%s but flags %s" % (noout, flags))
-                if listed != "1":
+                if resolved != "1":
+                    bad.append("calls_resolved false")
+                if listed != "1" and "H" not in flags:      # H: e.g. a record element `r . f` as list entry
                     bad.append("listed_signals false")
                 if "H" not in flags and mcat != "C":
                     bad.append("category %s for a combinational process" % mcat)
@@ -228,7 +239,7 @@ def compare(res, st, tag, cases, impl, model, f20_entry):
             if bad:
                 viol("generator and model disagree about the family: " + ", ".join(bad), "harness", nf=True)
             # --- instance of theorem C20_lint_exact on the extracted code
-            if cat in "ck" and mcat == "C" and fam == "1" and noout == "1" and wf == "1" and listed == "1":
+            if cat in "ck" and mcat == "C" and fam == "1" and resolved == "1" and wf == "1" and listed == "1":
                 st.theorem_instances += 1
                 if mm != mspec:
                     viol("extracted lint_model differs from extracted spec_diags although all hypotheses of "
@@ -254,7 +265,7 @@ def coq_cross_check(res, coqfile, sampled):
     if not items:
         return
     items = items[:250]
-    root = "root_of 1 33 100 102"
+    root = COQ_ROOT
     pre = COQ_PRE + "Definition cases : list (process * option (list diag) * option (list diag)) := [\n" + ";\n".join(items) + "].\n"
     body = ("forallb (fun c => match c with (p, m, s) => odiags_eqb (lint_model (%s) p) m && "
             "match s with Some _ => odiags_eqb (Some (spec_diags (%s) p (names_of p))) s | None => true end end) cases" % (root, root))
@@ -375,7 +386,7 @@ def main(tier, replay=None):
     res.coverage["known_finding_F20_reproduced"] = st.f20
     res.coverage["exhaustive"] = False
     res.coverage["rule"] = (
-        "corpus (F14, F15, F20, two observations, seven clocked shapes K1-K7) first; then random processes from the family: 1-4 top-level statements, "
+        "corpus (F14, F15, F20a-d, two observations, multi-level list entries M1-M4, seven clocked shapes K1-K7) first; then random processes from the family: 1-4 top-level statements, "
         "nesting <= 3 (thorough: also 4) of signal/variable assignments (simple, conditional, selected, force, release), "
         "if/elsif/else, case, for/while/plain loops with next/exit, procedure calls (positional and named; in, inout, out), "
         "assert/report, null; expressions over bit, integer, bit_vector, array, record and boolean signals, variables, "
@@ -386,7 +397,8 @@ def main(tier, replay=None):
         "condition itself, as left or right operand of and/or/xor, under not, in parentheses, nested up to 3 levels; "
         "4% `all`, 4% without list; 10% with constructs outside "
         "the family (signal in a target index, slice bound or assert report), 5% at the boundary of the clock heuristic; "
-        "out-mode signal actuals in ~1.5%. non-trivial = a combinational in-family process with >= 1 missing and >= 1 "
+        "sensitivity-list entries with up to three levels of indexing/slicing (arrays of arrays, element of a slice) and the "
+        "selected package signal; out-mode signal actuals (po/pov) in ~2%. non-trivial = a combinational in-family process with >= 1 missing and >= 1 "
         "superfluous signal expected, or a clocked process; distinct by hash of id+AST. Incremental stage (linter cache): "
         "corpus histories H1-H6 + 150 (thorough 3000) random histories of 2-4 update_source+analyse steps on ONE Project "
         "(3 libraries, one third party; entities c20_e/c20_f per library; 6 architecture files with 0-2 architectures of "
@@ -408,8 +420,10 @@ def main(tier, replay=None):
         "after expressions, report/severity expressions of assert, severity of report, arguments of attributes other than "
         "'image), no 'event attribute in a combinational process, no wait statement; outside it only the model "
         "correspondence is checked (DESIGN.md: observations, not raised)",
-        "no_out_actuals: no signal is the actual of an out-mode procedure parameter (open finding F20; reproduced cases are "
-        "reported as KNOWN-FINDING)",
+        "calls_resolved: the formal mode the specification attaches to every association element of a procedure call is the "
+        "one the code resolves (is_out_mode_formal); evaluated by the extracted code on every generated process. Actuals of "
+        "out-mode formals (positional, named, named with a type conversion in the formal part; plain, indexed, sliced, "
+        "selected, element of element) are in the family since 8599f6f (F20 fixed)",
         "record signals read only through an element selection are don't-care for both diagnostics (the statement excludes them)",
         "clock heuristic boundary (a one-argument function returning boolean in the first/second condition of a top-level if "
         "counts as a clock edge; a clock edge in the second of three or more conditions does not) and duplicate list "
